@@ -185,7 +185,9 @@ class SFixed(Template[_FixedTemplateArg], AssignableType):
                 zeros = -self._exp
                 static_assert(zeros >= 0)
 
-                self._val = _qualifier_(raw_type, val.resize(self._width, zeros=zeros))
+                self._val = _qualifier_[raw_type](
+                    val.resize(self._width, zeros=zeros)
+                )
             elif instance_check(val, Unsigned):
                 zeros = -self._exp
                 static_assert(zeros >= 0)
@@ -199,7 +201,7 @@ class SFixed(Template[_FixedTemplateArg], AssignableType):
                     assert self.left() >= val.left()
                     assert self.right() <= val.right()
 
-                    zeros = self.right() - val.right()
+                    zeros = val.right() - self.right()
 
                     self._val = _qualifier_[raw_type](
                         val._val.resize(self._width, zeros=zeros)
@@ -572,7 +574,7 @@ class UFixed(Template[_FixedTemplateArg], AssignableType):
                     assert self.left() >= val.left()
                     assert self.right() <= val.right()
 
-                    zeros = self.right() - val.right()
+                    zeros = val.right() - self.right()
 
                     self._val = _qualifier_[raw_type](
                         val._val.resize(self._width, zeros=zeros)
